@@ -300,17 +300,26 @@ type pref struct{ id int } // provisional reference, renumbered at the end
 // revision 1 (index 1) replaces page 1's content, revision 2 appends a page.
 func Build(L Layout, base [][]Item, rev2page1 []Item, rev3page []Item) ([]byte, error) {
 	b := &builder{L: L}
+	// ToUnicode programs sit behind the layout's filter chain like every other stream (except the predictor chains,
+	// whose padding to whole rows is only harmless in content streams)
+	filtered := func(raw []byte) *pdfw.Stream {
+		if L.Filter == "flpng" || L.Filter == "fltiff" {
+			return &pdfw.Stream{Data: raw}
+		}
+		data, d := encode(raw, L.Filter)
+		return &pdfw.Stream{Dict: d, Data: data}
+	}
 	font := func(rev, f, decoy int) *node {
 		switch f {
 		case 1:
 			return b.add(rev, pdfw.Dict{{"Type", pdfw.Name("Font")}, {"Subtype", pdfw.Name("Type1")}, {"BaseFont", pdfw.Name("Helvetica")}, {"Encoding", pdfw.Name("WinAnsiEncoding")}})
 		case 2:
 			tu := b.add(rev, nil)
-			tu.stm = &pdfw.Stream{Data: toUnicodeCMap(2, decoy)}
+			tu.stm = filtered(toUnicodeCMap(2, decoy))
 			return b.add(rev, pdfw.Dict{{"Type", pdfw.Name("Font")}, {"Subtype", pdfw.Name("Type1")}, {"BaseFont", pdfw.Name("Courier")}, {"ToUnicode", pref{tu.id}}})
 		default:
 			tu := b.add(rev, nil)
-			tu.stm = &pdfw.Stream{Data: toUnicodeCMap(3, decoy)}
+			tu.stm = filtered(toUnicodeCMap(3, decoy))
 			fdesc := b.add(rev, pdfw.Dict{{"Type", pdfw.Name("FontDescriptor")}, {"FontName", pdfw.Name("VerifSans")}, {"Flags", pdfw.Int(32)},
 				{"FontBBox", pdfw.Arr{pdfw.Int(0), pdfw.Int(-200), pdfw.Int(1000), pdfw.Int(800)}}, {"ItalicAngle", pdfw.Int(0)},
 				{"Ascent", pdfw.Int(800)}, {"Descent", pdfw.Int(-200)}, {"CapHeight", pdfw.Int(700)}, {"StemV", pdfw.Int(80)}})
